@@ -25,14 +25,14 @@ import numpy as np
 
 from vlib import common
 from harness import screens as S
-from harness.c02 import show_stage
+from harness.c02 import permute_mappings, show_stage
 
 common.use_repo_sources()
 
 RULE = ("prepared screens: S.gen_raw, arity 1-3 (mostly 1-2), 2-8 plates, 4..14 rows (quick) / ..40 (thorough), 2-4 samples, "
         "non-zero non-NaN observations (about 10% with an all-zero plate or a NaN so that reveals refuse), all observed or "
-        "plate-wise partially masked, 40% passed through mask_screen first, 10% with a mapping batchie produced for a strict "
-        "superset of the rows.  Split by the real create_random_holdout / create_plate_balanced_holdout_set_among_masked_plates "
+        "plate-wise partially masked, 40% passed through mask_screen first, 18% with a mapping for a strict superset of the rows "
+        "(half of them as batchie produced it, half as a hand-made table: ids relabelled by a permutation, rows shuffled).  Split by the real create_random_holdout / create_plate_balanced_holdout_set_among_masked_plates "
         "with np.random.default_rng(seed) (fractions 0, 0.2, 0.5, 0.8, 1; selection recovered through a recording proxy) or "
         "with a stub generator returning a hand-made selection that holds out EVERY row containing a chosen sample name or "
         "(treatment, dose).  On the training half and on the held-out half: history of 1..8 (quick) / ..20 (thorough) steps "
@@ -448,12 +448,17 @@ def gen_prepared(rng, n_max):
     elif z < 0.10:                                 # a NaN: revealing its plate refuses
         raw["obs"][rng.randrange(len(raw["obs"]))] = S.from_bits(rng.choice(NAN_BITS))
         kind = "nan-row"
-    if rng.random() < 0.10:
+    if rng.random() < 0.18:
         try:
             tm, sm = S.superset_mappings(rng, raw)
+            kind += "+superset-mapping"
+            if rng.random() < 0.5:
+                # a HAND-MADE table for the same relation: ids relabelled by a permutation, rows shuffled (not sorted by name,
+                # ids not in table order) -- every stage must keep reading ids off THIS table, row by row
+                tm, sm = permute_mappings(rng, tm, sm)
+                kind += "-hand-made"
             raw["tmap"] = [[str(x) for x in tm[0]], [float(x) for x in tm[1]], [int(x) for x in tm[2]]]
             raw["smap"] = [[str(x) for x in sm[0]], [int(x) for x in sm[1]]]
-            kind += "+superset-mapping"
         except Exception:
             raw["tmap"] = raw["smap"] = None
     return raw, kind
